@@ -261,7 +261,20 @@ fn split_csv_line(l: &str) -> Vec<String> {
 fn corrupt_matrix(rng: &mut Rng, text: &str) -> Vec<u8> {
     let mut lines: Vec<String> = text.lines().map(|s| s.to_string()).collect();
     let hdr = lines.iter().position(|l| !l.trim().is_empty()).unwrap_or(0);
-    match rng.below(18) {
+    match rng.below(21) {
+        18..=20 => {
+            // valid non-square matrix (rows != columns)
+            let d: Vec<i64> = lines[hdr].split_whitespace().filter_map(|x| x.parse().ok()).collect();
+            let (l, r) = (d.first().cloned().unwrap_or(1), d.get(1).cloned().unwrap_or(1));
+            let (nl, nr) = if rng.chance(1, 2) { (l, (r / 2).max(1)) } else { ((l / 2).max(1), r) };
+            let mut out = vec![format!("{} {}", nl, nr)];
+            for a in 0..nl {
+                for b in 0..nr {
+                    out.push(format!("{} {} {}", a, b, rng.range(-100, 3000)));
+                }
+            }
+            lines = out;
+        }
         0 => return Vec::new(),
         1 => return b"\n  \n\t\n".to_vec(),
         2 => lines.truncate(hdr + 1),
@@ -345,7 +358,10 @@ impl Engine for BuildSim {
         let base_csv = if user { spec.user_csv[0].clone() } else { spec.system_csv.clone() };
         let mut csvs = vec![];
         let mut matrices = vec![];
-        let style = rng.below(10); // 0..3 valid, 4..7 corrupt csv, 8..9 corrupt matrix
+        let mut style = rng.below(10); // 0..3 valid, 4..7 corrupt csv, 8..9 corrupt matrix
+        if !user && rng.chance(1, 16) {
+            style = 10; // non-square matrix with ids between the two dimensions
+        }
         if style <= 3 {
             csvs.push(Blob::Text(base_csv.clone()));
         } else if style <= 7 {
@@ -360,7 +376,39 @@ impl Engine for BuildSim {
             let extra = lines.iter().take(take).cloned().collect::<Vec<_>>().join("\n") + "\n";
             csvs.push(if rng.chance(1, 2) { Blob::Text(extra) } else { Blob::from_bytes(corrupt_csv(&mut rng, &extra, n_rows)) });
         }
-        if !user {
+        if style == 10 {
+            // rows != columns, and one entry whose id is valid for one dimension only
+            let n = rec.matrix.num_left;
+            let extra = 1 + rng.below(3);
+            let wide_left = rng.chance(1, 2);
+            let (nl, nr) = if wide_left { (n + extra, n) } else { (n, n + extra) };
+            let mut out = vec![format!("{} {}", nl, nr)];
+            for a in 0..nl {
+                for b in 0..nr {
+                    out.push(format!("{} {} {}", a, b, rng.range(-100, 3000)));
+                }
+            }
+            matrices.push(Blob::Text(out.join("\n") + "\n"));
+            let mut lines: Vec<String> = base_csv.lines().map(|x| x.to_string()).collect();
+            if !lines.is_empty() {
+                let li = rng.below(lines.len());
+                let mut f = split_csv_line(&lines[li]);
+                if f.len() > 3 {
+                    let big = (n + rng.below(extra)).to_string();
+                    let small = rng.below(n).to_string();
+                    // both orders: id beyond the rows / beyond the columns
+                    if rng.chance(1, 2) {
+                        f[1] = big;
+                        f[2] = small;
+                    } else {
+                        f[1] = small;
+                        f[2] = big;
+                    }
+                    lines[li] = f.iter().map(|x| quote(x)).collect::<Vec<_>>().join(",");
+                }
+            }
+            csvs[0] = Blob::Text(lines.join("\n") + "\n");
+        } else if !user {
             if style >= 8 {
                 matrices.push(Blob::from_bytes(corrupt_matrix(&mut rng, &spec.matrix)));
             } else {
